@@ -159,19 +159,22 @@ def plant(rng, arch, b):
         b.text += "dupl:" + sfx + "\n"
         return kind, "A", [p], trailer
     # instruction operands
-    forms = {"z80": [("ld a, ", 300), ("ld hl, ", 70000), ("jp ", 70000), ("call ", 70000)],
-             "sm83": [("ld a, ", 300), ("ld hl, ", 70000), ("jp ", 70000)],
+    forms = {"z80": [("ld a, ", 300), ("ld hl, ", 70000), ("jp ", 70000), ("call ", 70000),
+                     # two operand expressions in one instruction: the fault is in the second one
+                     ("ld (ix+1), ", 300), ("ld (iy+2), ", 300), ("ld (ix + 1 + 1), ", 300), ("jp nz, ", 70000), ("call c, ", 70000), ("bit 3, (ix+", 300)],
+             "sm83": [("ld a, ", 300), ("ld hl, ", 70000), ("jp ", 70000), ("jp nz, ", 70000), ("ld (hl), ", 300)],
              "6502": [("lda #", 300), ("jmp ", 70000), ("lda ", 70000)]}[arch]
     head, big = rng.choice(forms)
+    close = ")" if head.endswith("(ix+") else ""
     if kind == "instr_range":
-        p = stmt(head, str(big))
+        p = stmt(head, str(big), close)
         return kind, "A", [p], trailer
     if kind == "instr_undef":
-        p = stmt(head, "nosuch")
+        p = stmt(head, "nosuch", close)
         return kind, "L", [p], trailer
     tok = "fwd%d" % rng.randrange(10**6)
     trailer.append("@defn %s, %d" % (tok, big))
-    p = stmt(head, tok)
+    p = stmt(head, tok, close)
     return "instr_fwd", "L", [p], trailer
 
 def plant_twice(rng, arch, b):
